@@ -461,8 +461,8 @@ impl Check for C05 {
     }
     fn generate(r: &mut Rng, tier: Tier) -> Case {
         let mut c = gen::draw_cfg(r, tier);
-        c.max_extra_nodes = c.max_extra_nodes.min(4);
-        c.max_edges = c.max_edges.min(3);
+        c.max_extra_nodes = c.max_extra_nodes.min(if c.large { 12 } else { 4 });
+        c.max_edges = c.max_edges.min(if c.large { 8 } else { 3 });
         let seeds: Vec<Plain> = (0..r.range(1, 3)).map(|_| gen::gen_plain(r, &c, None)).collect();
         // most runs are short; some go deep (up to 40 operations)
         let max = if tier == Tier::Thorough { 40 } else { 30 };
